@@ -35,6 +35,7 @@ impl ValProp {
             }
             Which::C09 => {
                 pc.gen = GenCfg {
+                    allow_overflow_code: true,
                     max_members: 12,
                     max_args: 1,
                     max_depth: 1,
@@ -174,7 +175,7 @@ impl Prop for ValProp {
         super::val_enum::run(self, env.tier, idx, st)
     }
     fn exhaustive(&self, _tier: Tier) -> bool {
-        matches!(self.which, Which::C07 | Which::C08 | Which::C09 | Which::C10)
+        true
     }
     fn replay_other(&self, _env: &Env, case: &serde_json::Value, st: &mut Stats) -> Result<(), Fail> {
         if case.get("kind").and_then(|k| k.as_str()) == Some("project") {
